@@ -4,7 +4,8 @@
 #   the repository's own suite still passes with it (only the 3 known walker failures).
 # usage: confirm_seeds.sh [seed ...]   -> writes /verif/seeded/<seed>/confirm.json
 set -u
-WT=/tmp/seedwt
+WT=${SEEDWT:-/tmp/seedwt}   # SEEDWT=<dir>: use another scratch worktree (several confirmations in parallel)
+L=/tmp/seedlog.$(basename $WT); export L
 if [ ! -d $WT ]; then git -C /repo worktree add -q --detach $WT HEAD || exit 3; fi
 git -C $WT checkout -q --detach $(git -C /repo rev-parse HEAD)
 SEEDS="$@"
@@ -14,17 +15,18 @@ for S in $SEEDS; do
   FLAGS=$(python3 -c "import json;print(json.load(open('$D/meta.json')).get('cargo_flags') or '')")
   cd $WT; git checkout -q -- . ; rm -f tests/seeded_demo.rs
   cp $D/demo.rs tests/seeded_demo.rs
-  timeout 1500 cargo test --offline $FLAGS --test seeded_demo > /tmp/seed_base.log 2>&1; BASE=$?
-  APPLY=0; git apply $D/patch.diff 2>/tmp/seed_apply.log || APPLY=1
+  timeout 1500 cargo test --offline $FLAGS --test seeded_demo > $L.base.log 2>&1; BASE=$?
+  APPLY=0; git apply $D/patch.diff 2>$L.apply.log || APPLY=1
   WITH=-1; SUITE="-"; BUILD=-1
   if [ $APPLY = 0 ]; then
-    timeout 1500 cargo build --workspace --offline $FLAGS > /tmp/seed_build.log 2>&1; BUILD=$?
-    timeout 1500 cargo test --offline $FLAGS --test seeded_demo > /tmp/seed_with.log 2>&1; WITH=$?
+    timeout 1500 cargo build --workspace --offline $FLAGS > $L.build.log 2>&1; BUILD=$?
+    timeout 1500 cargo test --offline $FLAGS --test seeded_demo > $L.with.log 2>&1; WITH=$?
     rm -f tests/seeded_demo.rs
-    timeout 3000 cargo test --workspace --no-fail-fast --offline $FLAGS > /tmp/seed_suite.log 2>&1
+    timeout 3000 cargo test --workspace --no-fail-fast --offline $FLAGS > $L.suite.log 2>&1
     SUITE=$(python3 - <<'PY'
 import re
-t=open('/tmp/seed_suite.log').read()
+import os
+t=open(os.environ['L']+'.suite.log').read()
 p=sum(int(m.group(1)) for m in re.finditer(r'test result: \w+\. (\d+) passed', t))
 f=sum(int(m.group(1)) for m in re.finditer(r'test result: \w+\. \d+ passed; (\d+) failed', t))
 names=sorted(set(re.findall(r'^test (\S+) \.\.\. FAILED', t, re.M)))
@@ -35,7 +37,7 @@ PY
   fi
   git checkout -q -- . ; rm -f tests/seeded_demo.rs
   python3 - "$S" "$BASE" "$APPLY" "$BUILD" "$WITH" "$SUITE" "$FLAGS" <<'PY'
-import json,sys,subprocess
+import json,sys,subprocess,os
 s,base,apply_,build,with_,suite,flags=sys.argv[1:8]
 head=subprocess.run(['git','-C','/repo','rev-parse','--short','HEAD'],capture_output=True,text=True).stdout.strip()
 def tail(p):
@@ -48,8 +50,8 @@ r={"seed":s,"repo_head":head,"cargo_flags":flags,
    "suite_with_patch":suite}
 ok=(base=="0" and apply_=="0" and build=="0" and with_ not in ("0","-1") and "extra_failures=[]" in suite and "compile_error=False" in suite and "failed=3" in suite)
 r["confirmed"]=ok
-if base!="0": r["base_log_tail"]=tail('/tmp/seed_base.log')
-if apply_!="0": r["apply_log"]=tail('/tmp/seed_apply.log')
+if base!="0": r["base_log_tail"]=tail(os.environ['L']+'.base.log')
+if apply_!="0": r["apply_log"]=tail(os.environ['L']+'.apply.log')
 json.dump(r,open('/verif/seeded/%s/confirm.json'%s,'w'),indent=1)
 print(s, "CONFIRMED" if ok else "NOT-CONFIRMED", json.dumps({k:v for k,v in r.items() if k not in('base_log_tail','apply_log')}))
 PY
